@@ -76,6 +76,10 @@ pub struct Scenario {
     /// last record
     #[serde(default)]
     pub strict_after_buffer_limit: bool,
+    /// C17: a format error returned after an earlier (transient) failure still carries the true
+    /// fields of the input's invalid record
+    #[serde(default)]
+    pub post_err_fields: bool,
 }
 
 #[derive(Clone, Debug)]
@@ -516,6 +520,10 @@ impl<'a> Runner<'a> {
                         }
                         Item::Err(e) if self.m.strict => self.strict_err(op, &e),
                         Item::End if self.m.strict => self.strict_end(op),
+                        Item::Err(e) if self.sc.post_err_fields && !matches!(e.kind, ErrKind::Io(_) | ErrKind::BufferLimit) => match self.is_pending_err(&e) {
+                            Ok(()) => Ok(()),
+                            Err(m) => viol("error-mismatch-after-failure", format!("{:?}: {} after an earlier failed call ({})", op, e.show(), m)),
+                        },
                         _ => Ok(()),
                     },
                 }
@@ -656,6 +664,10 @@ impl<'a> Runner<'a> {
                         SetRes::Err(e) => {
                             if self.m.strict {
                                 self.strict_err(op, &e)?;
+                            } else if self.sc.post_err_fields && !matches!(e.kind, ErrKind::Io(_) | ErrKind::BufferLimit) {
+                                if let Err(m) = self.is_pending_err(&e) {
+                                    return viol("error-mismatch-after-failure", format!("{:?}: {} after an earlier failed call ({})", op, e.show(), m));
+                                }
                             }
                             self.iterate_after_failure(op, which)
                         }
